@@ -132,6 +132,7 @@ where
             p.ctl.with(|c| c.handler_keep_alive = true);
         }
         let mut rig = Rig::new(&rc, ids, log, b);
+        rig.world.with(|w| w.close_needed = cfg.get("close_polls").and_then(|x| x.as_u64()).unwrap_or(1) as usize);
         // one listener with one address
         let lid = rig.swarm.listen_on(addr(100)).expect("listen_on");
         let listener = rig.ids.listener(lid);
@@ -443,12 +444,12 @@ where
             let mut v = vec![];
             for (n, s) in w.dials.iter().enumerate() {
                 if let Some(m) = s.muxer {
-                    v.push(json!({"m": m, "id": self.slot_conn[n], "closed": w.muxers[m].close_called, "dropped": w.muxers[m].dropped}));
+                    v.push(json!({"m": m, "id": self.slot_conn[n], "closed": w.muxers[m].close_called, "dropped": w.muxers[m].dropped, "done": w.muxers[m].close_done}));
                 }
             }
             for (u, s) in w.upgrades.iter().enumerate() {
                 if let Some(m) = s.muxer {
-                    v.push(json!({"m": m, "id": self.upg_conn.get(u).copied().unwrap_or(-1), "closed": w.muxers[m].close_called, "dropped": w.muxers[m].dropped}));
+                    v.push(json!({"m": m, "id": self.upg_conn.get(u).copied().unwrap_or(-1), "closed": w.muxers[m].close_called, "dropped": w.muxers[m].dropped, "done": w.muxers[m].close_done}));
                 }
             }
             v
@@ -482,7 +483,7 @@ where
         let k = r.gen_range(0..100);
         match k {
             0..=13 if nconn < maxconn => {
-                let peer: i64 = if r.gen_bool(0.12) { -1 } else { r.gen_range(1..=2) };
+                let peer: i64 = if r.gen_bool(0.12) { -1 } else if r.gen_bool(0.06) { 0 } else { r.gen_range(1..=2) };
                 let conds = ["Always", "Disconnected", "NotDialing", "DisconnectedAndNotDialing"];
                 let na = if peer < 0 { 1 } else { r.gen_range(1..=2) };
                 let addrs: Vec<i64> = (0..na).map(|_| r.gen_range(1..=3)).collect();
@@ -558,7 +559,7 @@ pub fn main(a: &vcommon::Args) {
             let mut r = vcommon::rng(seed);
             for _ in 0..runs {
                 let deny_p = [0.0, 0.0, 0.1, 0.3][r.gen_range(0..4)];
-                let cfg = json!({"concurrency": r.gen_range(1..=3), "maxconn": maxconn});
+                let cfg = json!({"concurrency": r.gen_range(1..=3), "maxconn": maxconn, "close_polls": r.gen_range(1..=3)});
                 let mut run: Run<Three> = Run::new(&cfg);
                 let mut sched = vec![];
                 for _ in 0..steps {
